@@ -354,6 +354,10 @@ class Plane:
             plane.amplitude = lentil.rescale(plane.amplitude, scale=scale, shape=None,
                                                 mask=None, order=3, mode='nearest',
                                                 unitary=False)/scale
+        elif plane._mask.ndim > 1:
+            # a scalar amplitude over a sampled mask loses the same factor (each
+            # sample now covers 1/scale**2 of the area it covered before)
+            plane.amplitude = plane.amplitude/scale
 
         if plane.opd.ndim > 1:
             plane.opd = lentil.rescale(plane.opd, scale=scale, shape=None, mask=None,
